@@ -160,6 +160,11 @@ func corpusC02() []*Case {
 		[]Pkg{pk("a", "1.0", "c>2", "v"), pk("b", "1.0", "c>=3", "c"), pk("c", "1.0").prov("v=1"), pk("c", "3.0").prov("v=1"),
 			pk("c", "5.0", "b", "!zz").prov("v=2"), pk("c", "4.0_rc1")},
 		w("a", "b", "c<9"), w("b", "a"), w("v", "c"), w("c", "v"), w("c=5.0", "a"), w("a", "c<5"), w("c<5", "a")))
+	// ... and a pure virtual with three provider names of different priorities (Example c02_closed_multi_version_example_virtual)
+	cs = append(cs, single("wider envelope: pure virtual with several provider names and priorities",
+		[]Pkg{pk("app", "1", "sh", "c>1"), pk("bash", "5.0").prov("sh").prio(10), pk("busybox", "1.0", "c").prov("sh").prio(20), pk("dash", "0.5").prov("sh"),
+			pk("dash", "0.4"), pk("c", "1.0"), pk("c", "2.0"), pk("tool", "1", "sh", "bash")},
+		w("tool", "app", "sh"), w("app", "tool"), w("sh"), w("dash", "app"), w("app", "dash"), w("bash", "sh", "busybox")))
 	// conflict entries: the three ways a result can hold a member excluded by a member's entry (C02-F7 and its two
 	// install_if variants), and the orders in which the entry is honoured (error)
 	cs = append(cs, single("C02-F7 conflict entry read after the excluded package was chosen; versioned entry; entry on a provided name",
